@@ -20,7 +20,7 @@ EXPLANATION = (
     'handler derives state from the rebound field; (d) FieldUpdate payload '
     'def-use; (e) completeness of the ancestor walk.  Exactly-once / ordering '
     'for arbitrary batches is not decided.')
-FLOORS = {'C09.a': 10, 'C09.b': 2, 'C09.c': 2, 'C09.d': 1, 'C09.e': 1, 'C09.f': 4}
+FLOORS = {'C09.a': 10, 'C09.b': 2, 'C09.c': 2, 'C09.d': 1, 'C09.e': 1, 'C09.f': 4, 'C09.g': 2}
 FILES = c08.FILES + ['pyglove/ext/evolution/recombinators.py',
                      'pyglove/ext/evolution/mutators.py',
                      'pyglove/core/geno/base.py', 'pyglove/core/geno/categorical.py']
@@ -566,6 +566,41 @@ def rule_f(ctx):
     raise AnalysisError(f'C09.f found only {n} notification call sites')
 
 
+def rule_g(ctx):
+  """Who receives a payload is decided afresh for every notification:
+  `_subscribes_field_updates` is a pure function of the object (its callback /
+  whether its class overrides _on_change) - no memo.  A memo kept on the class
+  is inherited through the MRO by subclasses that do override _on_change, whose
+  handlers are then called with an empty payload."""
+  idx = ctx.index
+  n = 0
+  for cls_fq in (S.OBJECT, S.DICT, S.LIST):
+    f = idx.lookup_method(cls_fq, '_subscribes_field_updates')
+    if f is None:
+      continue
+    n += 1
+    stores = []
+    for x in ast.walk(f.node):
+      if isinstance(x, (ast.Assign, ast.AugAssign, ast.AnnAssign)):
+        for t in A.stmt_targets(x):
+          if isinstance(t, (ast.Attribute, ast.Subscript)):
+            stores.append(A.unparse(x, 80))
+      elif isinstance(x, ast.Call) and (A.call_name(x) or '').split('.')[-1] in ('setattr', '_set_raw_attr', '__setattr__', 'setdefault'):
+        stores.append(A.unparse(x, 80))
+    ctx.ob('C09.g', f.fq, not stores,
+           'whether an object subscribes to field updates is recomputed on every notification (no memo, no side effect)',
+           f.loc, 'the answer is memoised: ' + '; '.join(stores) + ' - a cached value is shared with (or inherited by) '
+           'objects for which it is wrong, and their handlers receive an empty payload')
+  if n < 2:
+    raise AnalysisError('_subscribes_field_updates implementations vanished')
+  f = idx.lookup_method(S.OBJECT, '_subscribes_field_updates')
+  t = A.unparse(f.node, 3000)
+  ok = '_on_change.__code__' in t and 'Object._on_change.__code__' in t
+  ctx.ob('C09.g', f.fq + '#override-test', ok,
+         'an Object subscribes exactly when its class overrides _on_change (compared with Object._on_change)',
+         f.loc, 'the override test against Object._on_change is gone')
+
+
 def run(ctx):
   ctx.consult(*FILES)
   rule_a(ctx)
@@ -574,4 +609,5 @@ def run(ctx):
   rule_d(ctx)
   rule_e(ctx)
   rule_f(ctx)
+  rule_g(ctx)
   ctx.assume('handlers of user classes outside the repository are out of scope')
